@@ -5,11 +5,15 @@
 // cleartext origin log how each request was forwarded; a hijacking modifier
 // writes a marker through the connection it was handed.
 //
-// IN tokens:  L<p|s|t> T<t|p|n> req*
+// IN tokens:  L<p|s|t|x> T<t|p|n>[b|c] req*
 //
 //	L  listener: p plain TCP, s traffic-shaped, t transparent TLS (no CONNECT; T must be n),
 //	   x transparent TLS wrapped by a traffic-shaping listener (no CONNECT; T must be n)
-//	T  what the client does inside the tunnel: t TLS handshake, p plain HTTP, n no tunnel
+//	T  what the client does inside the tunnel: t TLS handshake, p plain HTTP, n no tunnel;
+//	   optional timing of the first tunnel bytes (ClientHello / first plain request) relative to the
+//	   CONNECT response: default the client waits for the 200; b it sends them in the SAME write as the
+//	   CONNECT head; c it sends the CONNECT head plus the first few of those bytes in one write and
+//	   the rest in a second write
 //	req = <form>[H][I|M|V]
 //	  form o origin-form, Host: example.com | a absolute http://other.test/.. | s absolute https://other.test/..
 //	       n origin-form, HTTP/1.0, no Host header (closes the connection)
@@ -78,6 +82,57 @@ func originHandler(kind string) http.Handler {
 		w.Header().Set("Content-Type", "text/plain")
 		io.WriteString(w, kind)
 	})
+}
+
+// earlyConn sends the CONNECT head together with the first bytes the client
+// writes into the tunnel (in one Write; with split, the head plus a few of
+// those bytes, then the rest), and consumes the proxy's answer to the CONNECT
+// before handing tunnel bytes to the reader.
+type earlyConn struct {
+	net.Conn
+	head   []byte
+	split  bool
+	br     *bufio.Reader
+	status int
+	got    bool
+}
+
+func (c *earlyConn) Write(b []byte) (int, error) {
+	if c.head == nil {
+		return c.Conn.Write(b)
+	}
+	head := c.head
+	c.head = nil
+	k := len(b)
+	if c.split {
+		k = len(b) / 2
+		if k > 10 {
+			k = 10
+		}
+	}
+	if _, err := c.Conn.Write(append(append([]byte(nil), head...), b[:k]...)); err != nil {
+		return 0, err
+	}
+	if k < len(b) {
+		if _, err := c.Conn.Write(b[k:]); err != nil {
+			return k, err
+		}
+	}
+	return len(b), nil
+}
+
+func (c *earlyConn) Read(b []byte) (int, error) {
+	if !c.got {
+		res, err := http.ReadResponse(c.br, &http.Request{Method: "CONNECT"})
+		if err != nil {
+			return 0, err
+		}
+		c.got, c.status = true, res.StatusCode
+		if res.StatusCode != 200 {
+			return 0, fmt.Errorf("CONNECT answered %d", res.StatusCode)
+		}
+	}
+	return c.br.Read(b)
 }
 
 type reqTok struct {
@@ -215,6 +270,15 @@ var (
 	ioWait  = 4 * time.Second
 )
 
+// closeWait bounds the wait for Proxy.Close; shortened like ioWait once the
+// tree under test has shown several missing responses.
+func closeWait() time.Duration {
+	if missing >= 3 {
+		return 300 * time.Millisecond
+	}
+	return 6 * time.Second
+}
+
 func noteMissing(err error) {
 	if ne, ok := err.(net.Error); ok && ne.Timeout() {
 		missing++
@@ -225,10 +289,17 @@ func noteMissing(err error) {
 }
 
 func runCase(in []string) (out []string) {
-	if len(in) < 2 || len(in[0]) != 2 || in[0][0] != 'L' || len(in[1]) != 2 || in[1][0] != 'T' {
+	if len(in) < 2 || len(in[0]) != 2 || in[0][0] != 'L' || len(in[1]) < 2 || len(in[1]) > 3 || in[1][0] != 'T' {
 		return []string{"BADCASE"}
 	}
 	lk, tk := in[0][1], in[1][1]
+	timing := byte('a')
+	if len(in[1]) == 3 {
+		timing = in[1][2]
+		if (timing != 'b' && timing != 'c') || tk == 'n' {
+			return []string{"BADCASE"}
+		}
+	}
 	if !strings.ContainsRune("pstx", rune(lk)) || !strings.ContainsRune("tpn", rune(tk)) || (lk == 't' || lk == 'x') != (tk == 'n') {
 		return []string{"INVALID"}
 	}
@@ -299,7 +370,7 @@ func runCase(in []string) (out []string) {
 		go func() { p.Close(); close(done) }()
 		select {
 		case <-done:
-		case <-time.After(6 * time.Second):
+		case <-time.After(closeWait()):
 			out = append(out, "STUCK")
 		}
 	}()
@@ -317,6 +388,7 @@ func runCase(in []string) (out []string) {
 	dead := false
 	first := 1
 	var cstate *tls.ConnectionState // what the client side of this connection negotiated
+	var ec *earlyConn
 	if lk == 't' || lk == 'x' {
 		raw.SetDeadline(time.Now().Add(ioWait))
 		tc := tls.Client(raw, ccfg)
@@ -327,6 +399,24 @@ func runCase(in []string) (out []string) {
 			cstate = &cs
 		}
 		cur, br = tc, bufio.NewReader(tc)
+	} else if head := fmt.Sprintf("CONNECT example.com:443 HTTP/1.1\r\nHost: example.com:443\r\nX-Tok: %s0\r\n\r\n", pref); timing != 'a' && (tk == 't' || len(toks) > 0) {
+		// the first tunnel bytes travel with the CONNECT head, before the 200 is read
+		first = 0
+		raw.SetDeadline(time.Now().Add(ioWait))
+		ec = &earlyConn{Conn: raw, head: []byte(head), split: timing == 'c', br: bufio.NewReader(raw)}
+		if tk == 't' {
+			tc := tls.Client(ec, ccfg)
+			if err := tc.Handshake(); err != nil {
+				noteMissing(err)
+				dead = true
+			} else {
+				cs := tc.ConnectionState()
+				cstate = &cs
+			}
+			cur, br = tc, bufio.NewReader(tc)
+		} else {
+			cur, br = ec, bufio.NewReader(ec)
+		}
 	} else {
 		first = 0
 		raw.SetDeadline(time.Now().Add(ioWait))
@@ -399,6 +489,9 @@ func runCase(in []string) (out []string) {
 		}
 	}
 	cur.Close()
+	if ec != nil && ec.status != 0 {
+		status[0] = strconv.Itoa(ec.status)
+	}
 
 	upMu.Lock()
 	e.mu.Lock()
@@ -493,6 +586,26 @@ func main() {
 		}
 	}
 	gen(nil)
+	// the same tunnels with the first tunnel bytes pipelined behind / split around the CONNECT head
+	// (sequences up to length 2; the longer ones do not add to the timing dimension)
+	for _, tm := range []string{"b", "c"} {
+		for _, m := range [][2]string{{"Lp", "Tt"}, {"Ls", "Tt"}, {"Lp", "Tp"}, {"Ls", "Tp"}} {
+			for _, s := range seqs {
+				if len(s) > 2 {
+					continue
+				}
+				emit("early", append([]string{m[0], m[1] + tm}, s...))
+				if len(s) > 0 {
+					h := append([]string(nil), s...)
+					h[len(h)-1] += "H"
+					emit("earlyH", append([]string{m[0], m[1] + tm}, h...))
+					x := append([]string(nil), s...)
+					x[0] += "I"
+					emit("earlyM", append([]string{m[0], m[1] + tm}, x...))
+				}
+			}
+		}
+	}
 	for _, m := range modes {
 		for _, s := range seqs {
 			emit("exh", append([]string{m[0], m[1]}, s...))
@@ -536,6 +649,9 @@ func main() {
 		r := rng.Fork()
 		m := modes[r.Intn(len(modes))]
 		in := []string{m[0], m[1]}
+		if m[1] != "Tn" {
+			in[1] += []string{"", "", "b", "c"}[r.Intn(4)]
+		}
 		ln := r.Range(1, maxLen)
 		for i := 0; i < ln; i++ {
 			t := forms[r.Intn(3)]
@@ -545,7 +661,7 @@ func main() {
 			case 1:
 				t += "V"
 			case 2:
-				if m[1] != "Tp" {
+				if !strings.HasPrefix(in[1], "Tp") {
 					t += "M"
 				}
 			}
